@@ -269,8 +269,36 @@ def t_tearfree_layout(ctx, it):
     ctx.oblige("tearfree.shampoo._init.unit-dimension-is-rejected-with-an-explanatory-ValueError", bool(str(e)), kind="layout")
 
 
+def mk_tf_shampoo_accept(shape):
+  """Tearfree Shampoo on one parameter shape (dims from {2, block, 2*block}): _init either rejects with an explanatory
+  ValueError, or the state it returns can be used: the first update runs and keeps the layout."""
+
+  def t(ctx, it):
+    sh = it.load_module(TS)
+    opts = sh.Options(block_size=4)
+    p = T.opaque("p", shape)
+    try:
+      st = sh._init(opts, p)
+    except ValueError as e:
+      ctx.oblige("tearfree.shampoo._init: rejection is an explanatory ValueError", bool(str(e)), kind="layout", detail=str(shape))
+      return
+    try:
+      upd, st1 = sh._update(opts, T.opaque("g", shape), st)
+    except (AssertionError, TypeError, IndexError, KeyError) as e:
+      ctx.fail("tearfree.shampoo: a parameter accepted by _init makes _update raise an internal error", kind="layout",
+               detail=f"shape={shape}: {type(e).__name__}: {str(e)[:120]}")
+      return
+    ctx.oblige("tearfree.shampoo._update.post.state-layout-is-a-fixed-point (accepted shape)", sig(st) == sig(st1), kind="layout", detail=str(shape))
+    ctx.oblige("tearfree.shampoo._update.post.update-has-the-parameter's-shape-and-dtype (accepted shape)", sig(upd) == sig(p), kind="layout", detail=str(shape))
+
+  return t
+
+
 def tasks(tier):
   ts = []
+  for rank in (1, 2, 3):
+    for shape in itertools.product((2, 4, 8), repeat=rank):
+      ts.append(Task(f"tearfree shampoo accepts-or-rejects[{shape}]", mk_tf_shampoo_accept(shape)))
   for cname in CONFIGS:
     for tname in TREES:
       if tname == "mixed" and (cname.startswith("fd") or cname == "compressed"):
